@@ -21,6 +21,7 @@ import os
 import hv
 
 TRANSPORTS = ["tcp", "unix", "ws", "udp"]
+DIRECT = ["http", "fasthttp", "mock"]          # transports without a pending table: the call waits inside Transport(ctx, ...)
 
 
 def hook_present():
@@ -220,6 +221,35 @@ def corpus_cases(ctx, hook):
     return out
 
 
+def gen_client_abort_case(rng, transport):
+    """Client.Abort with N >= 2 calls pending on a real Service whose handler sleeps 3 s: every pending call must return at
+    once (its context is cancelled; the transports of rpc/http, fasthttp and mock have an Abort that does nothing)."""
+    n = rng.choice([2, 3, 4])
+    steps = [["call", k, rng.choice([-1, 0]), 3000] for k in range(n)]
+    steps += [["await_svc", n, 3000], ["sleep", 20], ["abort"]]
+    steps += [["await_ret", k, 1500] for k in range(n)]
+    steps += [["probe", "after-abort"]]
+    f = n
+    steps += [["call", f, 0, 0], ["await_ret", f, 3000], ["sleep", 20], ["probe", "end"]]
+    return {"fam": "client-abort", "transport": transport, "peer": "service", "steps": steps, "hook": False, "n": n, "follow": f,
+            "pending_at_abort": list(range(n))}
+
+
+def gen_late_exit_case(transport):
+    """hook: connection #1 dies while its Send is held with a request in hand (a slow Write); a new call dials #2; only then
+    does the Send of #1 get out and run the exit handler: #2 must stay pooled (the next call uses it), and after the final
+    Abort every connection that was opened is closed."""
+    steps = [["call", 9, 0], ["await_recv", 1, 3000], ["reply", 9], ["await_ret", 9, 3000],
+             ["hold", "send@0", "dequeued"], ["call", 0, 2500], ["await_yield", "send@0", "dequeued", 3000]]
+    steps += kill_steps(transport)
+    steps += [["await_ret", 0, 3000], ["await_yield", "recv", "after-clean", 3000],
+              ["call", 1, 2500], ["await_recv", 2, 3000], ["reply", 1], ["await_ret", 1, 3000],
+              ["release", "send@0", "dequeued"], ["await_yield", "send@0", "after-clean", 3000], ["sleep", 30],
+              ["call", 2, 2500], ["await_recv", 3, 3000], ["reply", 2], ["await_ret", 2, 3000], ["sleep", 20], ["probe", "end"]]
+    return {"fam": "late-exit", "transport": transport, "peer": "script", "steps": steps, "hook": True, "follow": 2,
+            "answered": [9, 1, 2], "expect_dials": 2}
+
+
 def gen_cases(ctx, hook):
     rng = ctx.rng
     quick = ctx.tier == "quick"
@@ -234,7 +264,12 @@ def gen_cases(ctx, hook):
                 add(gen_fault_case(rng, t, f))
         for _ in range(2 if quick else 10):
             add(gen_abort_case(rng, t))
+    for t in DIRECT + ["tcp", "ws", "udp"]:
+        for _ in range(1 if quick else 4):
+            add(gen_client_abort_case(rng, t))
     if hook:
+        for t in ("tcp", "ws", "udp", "unix"):
+            add(gen_late_exit_case(t))
         for t in ("tcp", "ws", "udp", "unix"):
             for tpl in ("late-store", "store-before-clean", "store-before-onexit", "abort-before-store", "cancel-after-store"):
                 for dl in (False, True):
@@ -262,6 +297,8 @@ def ops_from_log(case, obs):
             armed[idmap[int(s[1])]] = "0" if tm < 0 else "1"
     flags = "".join(armed[i] for i in range(len(idmap))) or "-"
     ops = ["15" if t == "udp" else "31", flags]
+    if case.get("peer") == "service" and t not in DIRECT:
+        return service_ops(case, obs, ops, idmap)
     shown = []
 
     marks = {}          # probe name -> number of tokens emitted before it
@@ -272,6 +309,27 @@ def ops_from_log(case, obs):
     shown_marks = marks
     hooked = any(e["e"].startswith("t:") or e["e"].startswith("y:") for e in log)
     res = obs["results"]
+    if t in DIRECT:
+        for e in log:
+            m = idmap.get(e["k"])
+            if e["e"] == "call-begin" and m is not None:
+                op(["B", m])
+                op(["DB", m])
+            elif e["e"] == "user-cancel" and m is not None:
+                op(["U", m])
+            elif e["e"] == "abort-begin":
+                op(["ac"])
+                op(["asc"])
+            elif e["e"] == "call-ret" and m is not None:
+                out = e["s"]
+                if out.startswith("own") or out.startswith("other") or out.startswith("resp"):
+                    op(["DR", m, "R"])
+                elif out.startswith("error"):
+                    op(["DR", m, "E"])
+                else:
+                    op(["DX", m])
+                op(["E", m])
+        return ops, shown
     state = {}          # model caller -> "begun" | "conn" | "stored" | "enq" | "ret"
     cur_conn = {}       # model caller -> conn
     at = {}             # (conn, idx) -> model caller (latest)
@@ -468,6 +526,29 @@ def ops_from_log(case, obs):
     return ops, shown
 
 
+def service_ops(case, obs, ops, idmap):
+    """a real Service behind a multiplexed transport (family client-abort): the frames are not visible; with the hook the
+    client-side events are, otherwise a linearisation by the service's log"""
+    # reuse the general converters by presenting the service's log as a peer's: indices in the order of the calls
+    log = obs["log"]
+    if any(e["e"].startswith("y:") for e in log):
+        fake = dict(case)
+        fake["peer"] = "script"
+        o2 = dict(obs)
+        # the service's receive/send events carry no index: translate them with the indices seen at the store events
+        idx = {e["k"]: (e["c"], e["i"]) for e in log if e["e"] == "t:store"}
+        new = []
+        for e in log:
+            if e["e"] == "svc-recv" and e["k"] in idx:
+                e = dict(e, e="peer-recv", c=idx[e["k"]][0], i=idx[e["k"]][1])
+            elif e["e"] == "svc-send" and e["k"] in idx:
+                e = dict(e, e="peer-send", c=idx[e["k"]][0], i=idx[e["k"]][1])
+            new.append(e)
+        o2["log"] = new
+        return ops_from_log(fake, o2)
+    return ops, []
+
+
 def write_ok(log, q, c):
     """Send took a request at log position q: did its write succeed?  It did unless the next thing Send does on that
     connection is to leave with an error."""
@@ -559,6 +640,8 @@ def outcome_class(r):
 
 
 def compare(case, obs, line, out, shown=None):
+    if len(line.split()) <= 2:
+        return None           # nothing to replay (a real Service behind a multiplexed transport seen without the hook)
     toks, summ = parse_model(out)
     bad = [t for t in toks if t.startswith("!")]
     if bad:
@@ -580,8 +663,9 @@ def compare(case, obs, line, out, shown=None):
             continue
         if have != want:
             return "caller %d returned %r (%s), the model has it at %s" % (k, res.get(str(k)), want, have)
-    last = (obs.get("probes") or [None])[-1]
-    if last:
+    named = [p for p in (obs.get("probes") or []) if p["name"] != "teardown"]
+    last = named[-1] if named else None
+    if last and case["transport"] not in DIRECT:
         if last.get("pending") is not None and last.get("pooled", -1) >= 0:
             total = sum(last["pending"].values())
             if total != int(summ.get("pend", 0)):
@@ -625,6 +709,24 @@ def oracle(case, obs):
                             "%s: the connection was closed and rangeAndClean had returned when the caller registered its entry: nobody "
                             "fails it. Structural: connection not pooled, cleaner finished, %d entry pending, caller goroutine parked in "
                             "select at two probes 250 ms apart; deadline %s" % (t, pend, dl))
+    # 1b. Client.Abort: every call that was pending returns at once -- before the server (which sleeps 3 s) answers it
+    if case["fam"] == "client-abort":
+        ret = {e["k"]: e["q"] for e in log if e["e"] == "call-ret"}
+        sent = {e["k"]: e["q"] for e in log if e["e"] == "svc-send"}
+        abort_end = next((e["q"] for e in log if e["e"] == "abort-end"), None)
+        late = [k for k in case["pending_at_abort"] if not waited.get(k) or (k in sent and sent[k] < ret.get(k, 10**12))]
+        if late and abort_end is not None:
+            return ("c10:%s:abort-does-not-interrupt-pending-calls" % t,
+                    "%s: Client.Abort with %d calls pending: %s not back 1.5 s after Abort returned (they came back only when the server, "
+                    "which sleeps 3 s, answered: %s)" % (t, case["n"], ", ".join("caller %d" % k for k in late),
+                                                        {k: res.get(str(k), "still pending")[:40] for k in late}))
+    # 1c. the exit handler of a dead connection leaves the replacement connection pooled
+    if case["fam"] == "late-exit":
+        dials = sum(1 for e in log if e["e"] == "peer-accept")
+        if dials > case["expect_dials"]:
+            return ("c10:healthy-pooled-connection-evicted",
+                    "%s: the late exit of the dead connection's Send goroutine removed the replacement connection from the pool: the next "
+                    "call dialled connection #%d" % (t, dials))
     # 2. every call returns (the scripts wait generously; a call that did not return although the script cancelled it is stuck)
     for k in sorted({int(s[1]) for s in case["steps"] if s and s[0] == "call"}):
         if str(k) not in res:
@@ -662,6 +764,15 @@ def oracle(case, obs):
                         "%s: after Client.Abort and quiescence %d Send goroutine(s) of closed connections are still parked in their select "
                         "(Transport.Abort empties the pool, so onExit never cancels their context)" % (t, extra_s))
             return ("c10:%s:goroutines-left" % group(t), "%s: %d Send and %d Receive goroutines of dead connections left" % (t, extra_s, extra_r))
+    # 1d. teardown: after the final Client.Abort every connection ever opened is closed and no Send/Receive goroutine is left
+    td = probes.get("teardown")
+    if td and t not in DIRECT:
+        if td["opened"] != td["closed"]:
+            return ("c10:connection-left-open-after-abort", "%s: %d connections opened, %d closed after the final Client.Abort and quiescence "
+                    "(an orphaned socket with its goroutines)" % (t, td["opened"], td["closed"]))
+        if td["send_g"] > 0 or td["recv_g"] > 0:
+            return ("c10:goroutines-left-after-abort", "%s: %d Send and %d Receive goroutines of this client alive after the final Client.Abort "
+                    "and quiescence" % (t, td["send_g"], td["recv_g"]))
     return None
 
 
@@ -675,7 +786,7 @@ def reply_seen_arriving(obs, k):
 
 
 def group(t):
-    return {"tcp": "socket", "unix": "socket", "ws": "websocket", "udp": "udp"}[t]
+    return {"tcp": "socket", "unix": "socket", "ws": "websocket", "udp": "udp"}.get(t, t)
 
 
 def res_at(log, probe_name):
